@@ -3,7 +3,6 @@ package props
 import (
 	"fmt"
 	"reflect"
-	"sort"
 	"testing"
 
 	"github.com/mfcochauxlaberge/jsonapi"
@@ -89,11 +88,9 @@ func partialOracle(pc *gen.PayloadCase, ss *gen.SchemaSpec, full jsonapi.Resourc
 				continue
 			}
 
+			// "the value full unmarshaling gives it": the same list
 			a := append([]string{}, fv.([]string)...)
 			b := append([]string{}, pv.([]string)...)
-
-			sort.Strings(a)
-			sort.Strings(b)
 
 			if !reflect.DeepEqual(a, b) {
 				msg = fmt.Sprintf("to-many %q: full %q vs partial %q", n, fv, pv)
@@ -114,6 +111,12 @@ func TestC13Partial(t *testing.T) {
 		ss := gen.CoherentSchema(t, gen.SchemaOpts{MinTypes: 1, MaxTypes: 2, MaxAttrs: 6, MaxRelEdges: 5, AllKindsChance: 12, AllowTypeField: true})
 		ts := &ss.Types[rapid.IntRange(0, len(ss.Types)-1).Draw(t, "type")]
 		pc := gen.ResourcePayload(t, ts, gen.PayloadOpts{IllPerTen: 1, IllRelPerTen: 2, UnknownPerTen: 1})
+
+		// Something after the resource object: white space is fine for both
+		// entry points, anything else is not a JSON text any more.
+		if rapid.IntRange(0, 7).Draw(t, "trailing") == 0 {
+			pc.Text += rapid.SampledFrom([]string{"}", " {}", "x", "]", "\n \t", ",", " null", "\x00"}).Draw(t, "trailing-text")
+		}
 
 		var (
 			full       jsonapi.Resource
